@@ -87,12 +87,13 @@ def export_check(program, built, solver, prims, leaves, job):
             seen.add(key)
             # ---- JSON
             try:
-                for src in ("string", "file"):
-                    if src == "string":
-                        js = json.loads(sol.to_json())
+                for src in ("string", "file", "string-compact", "file-compact"):
+                    compact = src.endswith("compact")
+                    if src.startswith("string"):
+                        js = json.loads(sol.to_json(compact=compact))
                     else:
                         p = os.path.join(tmp, "s.json")
-                        sol.to_json_file(p)
+                        sol.to_json_file(p, compact=compact)
                         js = json.load(open(p))
                     if js.get("horizon") != sol.horizon:
                         bad("json:horizon", leaf, got=js.get("horizon"))
